@@ -31,6 +31,11 @@ MARKER_PROPS = {
     "VF:slice_opt.get": ["C01", "C02", "C03", "C05", "C13"],
     "VF:slice_opt.accessors_disagree": ["C13"],
     "VF:dense_owned.": ["C12", "C01", "C20"],
+    "VF:flatstack_ctor.": ["C10", "C03"],
+    "VF:values.": ["C01", "C14"],
+    "VF:values.float.read_differs": ["C01"],
+    "VF:values.tuple.read_differs": ["C01"],
+    "VF:dictionary.empty_refused": ["C07", "C01"],
     "VF:slice_opt.forms.": ["C20"],
     "VF:columns_coded.": ["C10"],
     "VF:columns_coded.clear": ["C08"],
